@@ -1,9 +1,115 @@
-(* C02 — placeholder while the model is being built *)
-From Coq Require Import ZArith List Bool.
+(* C02 — shape operations act as on a tensor of the batch shape, expanded to the right.
+   Property theorems only: each is closed by [exact] of a lemma proved in Proofs/C02_*.v, followed by
+   Print Assumptions (parsed by the harness on every run).
+
+   Vocabulary (Model/C02_ShapeOps.v, Proofs/C02_FrameP.v, Spec/C02_TorchShape.v):
+     tree           a tensordict: Leaf shape | Node batch_size names entries   (values are not modelled here)
+     apply t o      the model of tensordict's method o on t: Done t' | Raised k | Diverges | Unmodelled
+     torch_shape    what torch does to the shape of a tensor for the same call (validated against torch every run)
+     wf t           t is coherent: every entry's shape starts with its node's batch size, names name every batch dim
+     rel bs bs' t t'  t' is t with the leading bs of EVERY shape (entries and nested batch sizes, at every depth)
+                    replaced by bs', same keys in the same order, trailing feature / extra batch dims untouched *)
+From Coq Require Import ZArith List Bool String.
 Import ListNotations.
-From TD Require Import Spec.C02_TorchShape.
+From TD Require Import Spec.PySlice Spec.C02_TorchShape Model.C02_ShapeOps
+                       Proofs.C02_FrameP Proofs.C02_OpsP Proofs.C02_RefuteP.
+Open Scope string_scope.
 Open Scope Z_scope.
 
-Theorem C02_placeholder : t_squeeze_all [1; 2] = Ok [2].
-Proof. reflexivity. Qed.
-Print Assumptions C02_placeholder.
+(* ---------------------------------------------------------------------------------------------------------------
+   The property for permute, transpose, squeeze, unsqueeze, expand, view, reshape, flatten, unflatten, repeat,
+   repeat_interleave(dim): as stated it is FALSE of /repo (hence of the faithful model) *)
+Definition user_op (o : sop) : Prop := match o with OViewStar _ => False | _ => True end.
+
+Definition C02_one_result_ops_full_statement : Prop :=
+  forall t o bs', wf t -> user_op o -> torch_shape o (top_shape t) = Ok bs' ->
+  exists t', apply t o = Done t' /\ rel (top_shape t) bs' t t' /\ wf t'.
+
+Theorem C02_one_result_ops_refuted :
+  exists t o bs', wf t /\ user_op o /\ torch_shape o (top_shape t) = Ok bs' /\
+                  forall t', apply t o <> Done t'.
+Proof. exact full_statement_refuted. Qed.
+Print Assumptions C02_one_result_ops_refuted.
+
+(* ... and TRUE on the complement of the recorded defects, inside tensordict's documented domain ([in_domain] lists,
+   op by op, exactly what is excluded: D5/D5-view, C02-f, C02-g, C02-h, C02-m and the documented restrictions) —
+   for every tree (any depth / width / feature shapes / nested batch longer than the parent's), every argument
+   torch accepts (every dim incl. negative, every permutation, every legal target shape ...) *)
+Theorem C02_one_result_ops_partial : forall t o bs',
+  wf t -> in_domain o (top_shape t) -> torch_shape o (top_shape t) = Ok bs' ->
+  exists t', apply t o = Done t' /\ rel (top_shape t) bs' t t' /\ wf t'.
+Proof. exact shape_ops_act_on_batch_dims. Qed.
+Print Assumptions C02_one_result_ops_partial.
+
+(* in particular: the result's batch size is torch's shape, and the key set is preserved at every level *)
+Theorem C02_batch_size_and_keys : forall t o bs',
+  wf t -> in_domain o (top_shape t) -> torch_shape o (top_shape t) = Ok bs' ->
+  exists t', apply t o = Done t' /\ top_shape t' = bs' /\ same_keys t t'.
+Proof. exact shape_ops_batch_size. Qed.
+Print Assumptions C02_batch_size_and_keys.
+
+(* ---------------------------------------------------------------------------------------------------------------
+   The recorded defects are facts about the model (witness = the repro of findings.d/C02.json) *)
+Theorem C02_D4_split_list_refuted :
+  t_split_list [3] [5] 0 = Reject /\
+  td_split (td1 [3] [2]) (inr [5]) 0 = Done [Node [5] None [("a", Leaf [3; 2])]] /\
+  cohb (Node [5] None [("a", Leaf [3; 2])]) = false.
+Proof. exact D4_split_list_accepts_illegal. Qed.
+Print Assumptions C02_D4_split_list_refuted.
+
+Theorem C02_D4_split_terminates_refuted :
+  t_split_int [2] 0 0 = Reject /\ td_split (td1 [2] []) (inl 0) 0 = Diverges /\
+  t_split_int [2] (-1) 0 = Reject /\ td_split (td1 [2] []) (inl (-1)) 0 = Diverges.
+Proof. exact D4_split_zero_diverges. Qed.
+Print Assumptions C02_D4_split_terminates_refuted.
+
+Theorem C02_D5_squeeze_refuted :
+  t_squeeze_all [1; 1] = Ok [] /\
+  apply (named [1; 1] [Some "x"; Some "y"] [2]) (OSqueeze None) = Raised EValue.
+Proof. exact D5_squeeze_all_named_raises. Qed.
+Print Assumptions C02_D5_squeeze_refuted.
+
+Theorem C02_D22_stack_reject_refuted :
+  t_stack [[3]; [3]] 2 = Reject /\
+  td_stack [td1 [3] [4]; td1 [3] [4]] 2 = Done (Node [3; 2] None [("a", Leaf [3; 4; 2])]) /\
+  cohb (Node [3; 2] None [("a", Leaf [3; 4; 2])]) = false.
+Proof. exact D22_stack_dim_past_rank. Qed.
+Print Assumptions C02_D22_stack_reject_refuted.
+
+Theorem C02_S5_flatten_reject_refuted :
+  t_flatten [2] 0 1 = Reject /\
+  apply (td1 [2] [3; 4]) (OFlatten 0 1) = Done (Node [2] None [("a", Leaf [6; 4])]) /\
+  cohb (Node [2] None [("a", Leaf [6; 4])]) = false.
+Proof. exact S5_flatten_past_batch_dims. Qed.
+Print Assumptions C02_S5_flatten_reject_refuted.
+
+(* ---------------------------------------------------------------------------------------------------------------
+   Non-vacuity: a three-level tree with a nested batch longer than the parent's, a size-0-free and a size-1 dim,
+   satisfies the hypotheses; the theorem's conclusion is computed for it *)
+Definition ex_tree : tree := ex_tree_P.
+Definition ex_tree_unfolded : tree :=
+  Node [2; 1; 3] (Some [Some "x"; None; Some "z"])
+    [("a", Leaf [2; 1; 3]);
+     ("b", Leaf [2; 1; 3; 4; 5]);
+     ("n", Node [2; 1; 3; 2] (Some [Some "x"; None; Some "z"; None])
+             [("x", Leaf [2; 1; 3; 2]);
+              ("m", Node [2; 1; 3; 2; 1] None [("z", Leaf [2; 1; 3; 2; 1; 3])])])].
+
+Example C02_ex_wf : wf ex_tree.
+Proof. exact ex_tree_wf. Qed.
+
+Example C02_ex_permute :
+  in_domain (OPermute [-1; 0; 1]) (top_shape ex_tree) /\
+  torch_shape (OPermute [-1; 0; 1]) (top_shape ex_tree) = Ok [3; 2; 1] /\
+  apply ex_tree (OPermute [-1; 0; 1]) =
+    Done (Node [3; 2; 1] (Some [Some "z"; Some "x"; None])
+      [("a", Leaf [3; 2; 1]);
+       ("b", Leaf [3; 2; 1; 4; 5]);
+       ("n", Node [3; 2; 1; 2] (Some [Some "z"; Some "x"; None; None])
+               [("x", Leaf [3; 2; 1; 2]);
+                ("m", Node [3; 2; 1; 2; 1] None [("z", Leaf [3; 2; 1; 2; 1; 3])])])]).
+Proof. split; [exact I|]. split; vm_compute; reflexivity. Qed.
+
+Example C02_ex_flatten :
+  in_domain (OFlatten 0 (-1)) (top_shape ex_tree) /\ torch_shape (OFlatten 0 (-1)) (top_shape ex_tree) = Ok [6].
+Proof. split; [split; [discriminate|vm_compute; reflexivity]|vm_compute; reflexivity]. Qed.
